@@ -175,10 +175,64 @@ func goodVal(m *g.Msg, id string) g.Val {
 	return key(0, id)
 }
 
+// aggregate: elements that are individually wrong while their sum is the sum of the right
+// ones (a validator that checks one aggregated pairing equation would accept them)
+func aggregate(add func(name string, f func(m *g.Msg)), third string) {
+	comb := func(ts ...g.Term) g.Val { return g.Val{Kind: "comb", Terms: ts} }
+	d := func(tag int) g.Val { return g.Val{Kind: "junk", Ident: idD, Tag: 40 + tag} }
+	add("aggregate:values-exchanged", func(m *g.Msg) {
+		if len(m.Items) > 1 {
+			m.Items[0].Val, m.Items[1].Val = m.Items[1].Val, m.Items[0].Val
+		}
+	})
+	add("aggregate:+D,-D", func(m *g.Msg) {
+		if len(m.Items) > 1 {
+			m.Items[0].Val = comb(g.Term{Val: m.Items[0].Val}, g.Term{Val: d(1)})
+			m.Items[1].Val = comb(g.Term{Val: m.Items[1].Val}, g.Term{Val: d(1), Neg: true})
+		}
+	})
+	add("aggregate:+D1,+D2,-D1-D2", func(m *g.Msg) {
+		if len(m.Items) == 2 {
+			id := third
+			if len(m.Items[0].Ident) > 64 {
+				id = wide(third)
+			}
+			m.Items = append(m.Items, g.Item{Ident: id, Val: goodVal(m, id)})
+		}
+		if len(m.Items) > 2 {
+			m.Items[0].Val = comb(g.Term{Val: m.Items[0].Val}, g.Term{Val: d(1)})
+			m.Items[1].Val = comb(g.Term{Val: m.Items[1].Val}, g.Term{Val: d(2)})
+			m.Items[2].Val = comb(g.Term{Val: m.Items[2].Val}, g.Term{Val: d(1), Neg: true}, g.Term{Val: d(2), Neg: true})
+		}
+	})
+	add("aggregate:sum-of-both,infinity", func(m *g.Msg) {
+		if len(m.Items) > 1 {
+			a, b := m.Items[0].Val, m.Items[1].Val
+			m.Items[0].Val = comb(g.Term{Val: a}, g.Term{Val: b})
+			m.Items[1].Val = g.Val{Kind: "inf"}
+		}
+	})
+	add("aggregate:infinity,sum-of-both", func(m *g.Msg) {
+		if len(m.Items) > 1 {
+			a, b := m.Items[0].Val, m.Items[1].Val
+			m.Items[1].Val = comb(g.Term{Val: a}, g.Term{Val: b})
+			m.Items[0].Val = g.Val{Kind: "inf"}
+		}
+	})
+	add("aggregate:2A,B-A", func(m *g.Msg) {
+		if len(m.Items) > 1 {
+			a, b := m.Items[0].Val, m.Items[1].Val
+			m.Items[0].Val = comb(g.Term{Val: a}, g.Term{Val: a})
+			m.Items[1].Val = comb(g.Term{Val: b}, g.Term{Val: a, Neg: true})
+		}
+	})
+}
+
 func mutations() []mutation {
 	var ms []mutation
 	add := func(name string, f func(m *g.Msg)) { ms = append(ms, mutation{name, f}) }
 	add("none", func(m *g.Msg) {})
+	aggregate(add, idC)
 	add("instance+1", func(m *g.Msg) { m.Inst++ })
 	add("instance=0", func(m *g.Msg) { m.Inst = 0 })
 	for _, e := range []uint64{0, 2, 3, math.MaxInt64, 1 << 63, math.MaxUint64, 1<<32 + 1} {
@@ -464,6 +518,11 @@ func (r *runner) runCore(c *caseJ) {
 		case !wf && res == "accept":
 			r.violate(c, "C04:"+c.Msg.Type+":false-accept", "accepted although: "+why, res, "reject")
 		}
+		// element-wise reference verdict with the real cryptography
+		if ok, i := g.ElementsValid(mat, c.State, c.Msg); !ok && res == "accept" {
+			r.violate(c, "C04:"+c.Msg.Type+":accepted-although-an-element-is-invalid",
+				fmt.Sprintf("accepted although element %d is not the valid %s for its identity (real shcrypto verification of that element alone fails)", i, c.Msg.Type), res, "reject")
+		}
 		if (res == "accept") != (d.Verdict == "accept") && res != "panic" && d.Verdict != "panic" {
 			r.violate(c, "C04:combined-differs-from-only-validator", "the combined validator and the topic's only validator disagree", res, d.Verdict)
 		}
@@ -566,6 +625,16 @@ func (r *runner) runFlavour(c *caseJ) {
 			r.violate(c, "C04:"+c.Flavour+":envelope-mutation-accepted", "a message with a wrong topic / version / payload was accepted", res, "reject")
 		}
 	} else if !anyPanic && !c.Msg.NilInner() {
+		if res == "accept" {
+			// the core validator is part of every keyper's chain: what it must refuse is refused here too
+			if wf, why := g.WfCore(mat, c.State, c.Msg); !wf {
+				r.violate(c, "C04:"+c.Flavour+":"+c.Msg.Type+":false-accept", "accepted although: "+why, res, "reject")
+			}
+			if ok, i := g.ElementsValid(mat, c.State, c.Msg); !ok {
+				r.violate(c, "C04:"+c.Flavour+":"+c.Msg.Type+":accepted-although-an-element-is-invalid",
+					fmt.Sprintf("accepted although element %d is not the valid %s for its identity (real shcrypto verification of that element alone fails)", i, c.Msg.Type), res, "reject")
+			}
+		}
 		// reject dominates: accepted iff every validator of the topic accepts
 		if (res == "accept") != allAccept {
 			r.violate(c, "C04:"+c.Flavour+":combined-is-not-the-conjunction", "combined verdict is not 'all validators accept'", res, allAccept)
@@ -792,6 +861,7 @@ func flavourMutations(fl string) []mutation {
 	var ms []mutation
 	add := func(name string, f func(m *g.Msg)) { ms = append(ms, mutation{name, f}) }
 	add("none", func(m *g.Msg) {})
+	aggregate(func(name string, f func(m *g.Msg)) { add(name+"-resigned", f) }, idC)
 	// the core validator's concern only
 	add("value[0]=junk", func(m *g.Msg) { m.Items[0].Val = g.Val{Kind: "junk", Ident: m.Items[0].Ident, Tag: 1} })
 	add("value[1]=other-eon-key", func(m *g.Msg) {
